@@ -12,7 +12,7 @@ import (
 )
 
 // Positions lists every expression position.
-var Positions = []string{"where", "project", "extend", "extend-unnamed", "summarize-agg", "summarize-key", "sort", "top", "take", "let", "let-chain", "join-on", "join-on-nested"}
+var Positions = []string{"where", "project", "extend", "extend-unnamed", "summarize-agg", "summarize-key", "sort", "top", "take", "let", "let-chain", "where-then-lets", "join-on", "join-on-nested"}
 
 // build wraps the surface expression into a program for the position.
 func Build(pos string, sx *E) *Program {
@@ -45,6 +45,12 @@ func Build(pos string, sx *E) *Program {
 		return Query("T", &Op{K: "take", X: sx})
 	case "let":
 		return &Program{Stmts: []*Stmt{{LetName: id("v"), LetX: sx}, {Pipe: &Pipe{Table: Ident{Name: "T"}, Ops: []*Op{{K: "extend", Cols: []Col{{Name: id("r"), X: Name("v")}}}}}}}}
+	case "where-then-lets":
+		// lets written after the query bind the names of its columns: no effect
+		let := func(n string, x *E) *Stmt { return &Stmt{LetName: id(n), LetX: x} }
+		return &Program{Stmts: []*Stmt{
+			{Pipe: &Pipe{Table: Ident{Name: "T"}, Ops: []*Op{{K: "where", X: sx}}}},
+			let("ia", Num("5")), let("ib", Un("-", Num("1"))), let("sa", StrLit("x", false)), let("sb", Name("sa")), let("ba", Name("true")), let("bb", Name("false")), let("ma", Num("0")), let("true", Name("false"))}}
 	case "let-chain":
 		// the value sits between lets of other shapes (signed, string,
 		// parenthesised before; signed after): nothing of theirs may reach it
@@ -97,7 +103,7 @@ func Locate(pos string, st *sqlmini.Stmt) (*sqlmini.X, string) {
 		return sel.Items[i].X, ""
 	}
 	switch pos {
-	case "where":
+	case "where", "where-then-lets":
 		if sel.Where == nil {
 			return nil, "no WHERE clause"
 		}
